@@ -15,7 +15,7 @@
    returned keys: reference node n gets the value of the key returned for it. *)
 From Coq Require Import ZArith List Bool.
 From PL.C11 Require Import ModelBuilder ProofsBasics ProofsBuilder ProofsInv ProofsStep ProofsSem
-  ProofsCompleteShape ProofsCompleteInv ProofsComplete ProofsCompleteLfp ProofsCompleteAtoms ProofsCompleteMain.
+  ProofsCompleteShape ProofsCompleteInv ProofsComplete ProofsCompleteLfp ProofsCompleteAtoms ProofsCompletePos ProofsCompleteMain.
 Import ListNotations.
 Open Scope Z_scope.
 
@@ -153,20 +153,26 @@ Proof. exact lfpN_equal. Qed.
 Print Assumptions C11_lfp_equal.
 
 (* The same with ModelBuilder.lfp_val (plain Kleene iteration from the all-false valuation).
-   PARTIAL: only for graphs WITHOUT negative keys, and `posonly` of the builder's graph is a (decidable)
-   hypothesis on the result instead of being derived from `posonly (rg r)`.
-   The first restriction cannot be lifted: lfp_val reads a negated atom from the previous iterate (all-false at
-   the start), so with a negated atom inside a cycle it is not the least model and the equality is FALSE, see
-   C11_lfp_val_negated_atom_cycle below; C11_lfp_equal is the statement for that class.
+   PARTIAL in the class of histories only: reference graphs WITHOUT negative keys (then the builder's graph has
+   none either, C11_no_negation_inherited).  This restriction cannot be lifted for lfp_val: it reads a negated
+   atom from the previous iterate (all-false at the start), so with a negated atom inside a cycle it is not the
+   least model and the equality is FALSE, see C11_lfp_val_negated_atom_cycle below; C11_lfp_equal is the
+   statement for that class (negation on atoms).
    Not covered by any of the least-model theorems: negation of derived (non-atom) nodes (stratified negation);
    for those histories the proved statements are C11_builder_sound + C11_builder_complete (same supported
-   valuations), the stratified reading is covered by the tie only. *)
-Theorem C11_lfp_val_equal_partial : forall o pcl ops r, run o pcl init ops = Ok r ->
-  posonly (rg r) -> posonly (nodes (impl r)) ->
+   valuations), the stratified (perfect-model) reading is covered by the tie only.  Missing for it: a level
+   mapping of the builder's graph compatible with one of the reference graph (shared/collapsed nodes get the
+   minimum level of the reference nodes they stand for), then the level-wise version of C11_least_model_equal. *)
+Theorem C11_lfp_val_equal_partial : forall o pcl ops r, run o pcl init ops = Ok r -> posonly (rg r) ->
   forall a n ik, nth_error (rmap r) n = Some ik ->
   lfp_val a (nodes (impl r)) ik = lfp_val a (rg r) (Some (Z.of_nat n + 1)).
 Proof. exact lfp_val_equal. Qed.
 Print Assumptions C11_lfp_val_equal_partial.
+
+Theorem C11_no_negation_inherited : forall o pcl ops r, run o pcl init ops = Ok r -> posonly (rg r) ->
+  posonly (nodes (impl r)).
+Proof. exact posonly_inherited. Qed.
+Print Assumptions C11_no_negation_inherited.
 
 Theorem C11_lfp_val_is_least : forall a g, posonly g -> exists V, least_sol a g V /\ forall k, lfp_val a g k = vkey V k.
 Proof. exact lfp_val_least. Qed.
